@@ -73,18 +73,26 @@ theorem passThrough_eq (op : Op) (a b : StepLoop.Leg) :
 theorem moveOn_eq (slots : Slots) (st : List Bool) (pos : Nat) (op' : Op) (ex : StepLoop.Leg) :
     StepLoop.moveOn slots st pos op' ex = Qmc.moveOn slots st pos op' (cv ex) := rfl
 
+theorem totalVars_eq : ∀ (s : Slots), StepLoop.totalVars s = Qmc.totalVars s
+  | [] => rfl
+  | none :: t => by unfold StepLoop.totalVars Qmc.totalVars; exact totalVars_eq t
+  | some op :: t => by unfold StepLoop.totalVars Qmc.totalVars; rw [totalVars_eq t]
+
+theorem pickLeg_eq : ∀ (s : Slots) (p c : Nat), StepLoop.pickLeg s p c = Qmc.pickLeg s p c
+  | [], _, _ => rfl
+  | none :: t, p, c => by unfold StepLoop.pickLeg Qmc.pickLeg; exact pickLeg_eq t (p + 1) c
+  | some op :: t, p, c => by
+    unfold StepLoop.pickLeg Qmc.pickLeg
+    rw [pickLeg_eq t (p + 1) (c - op.vars.length)]
+
 theorem loopStart_eq (slots : Slots) (rs : RS) :
     ((StepLoop.loopStart slots rs).1.map cvP, (StepLoop.loopStart slots rs).2) = Qmc.loopStart slots rs := by
   unfold StepLoop.loopStart Qmc.loopStart
-  simp only [nthOp_eq]
-  rcases hn : Qmc.nthOp slots (rs.genRange (countOps slots)).1 with _ | p
+  simp only [totalVars_eq, pickLeg_eq]
+  rcases Qmc.pickLeg slots 0 (rs.genRange (Qmc.totalVars slots)).1 with _ | ⟨p, b⟩
   · rfl
   · simp only []
-    rcases hs : slots[p]? with _ | _ | op
-    · rfl
-    · rfl
-    · simp only []
-      split <;> rfl
+    split <;> rfl
 
 theorem loopBody_eq (w : Nat → List Bool → List Bool → Rat) (init : Nat × StepLoop.Leg) (pos : Nat)
     (ent : StepLoop.Leg) (s : StepLoop.LoopSt) :
